@@ -7,10 +7,10 @@ package jsonrpc
 
 //@ property C10 units: WithMaxRequestSize$1, NewServer, (*RPCServer).HandleRequest, websocketClient, normalizeID, (*wsConn).cancelCtx, (*wsConn).handleChanMessage, (*wsConn).handleChanClose, (*wsConn).handleResponse, (*wsConn).handleFrame, (*wsConn).frameExecutor, (*wsConn).handleCall, (*wsConn).readFrame, (*wsConn).nextMessage, (*handler).handleReader, (*handler).handle, rpcError, (*handler).createError, (response).MarshalJSON, (*handler).getSpan, (*JSONRPCError).val, (*rpcFunc).processResponse, (*client).makeOutChan$1$2
 //@ property C09 units: (*handler).handleReader$1, (*handler).handleReader$2, (*wsConn).handleCall$1, (*RPCServer).HandleRequest, (*handler).handleReader, (*handler).handle, (*handler).handle$1, rpcError, rpcError$1, (response).MarshalJSON, normalizeID, withLazyWriter, (*wsConn).handleCall, (*wsConn).handleOutChans$1
-//@ property C12 units: WithMethodNameFormatter$1, WithServerMethodNameFormatter$1, NewServer, (*RPCServer).Register, NewMergeClient, makeHandler, (*handler).register, (*handler).handle, processFuncOut, (*client).makeRpcFunc, NewMethodNameFormatter$1, (*RPCServer).AliasMethod, WithClientHandlerAlias$1
+//@ property C12 units: WithMethodNameFormatter$1, WithServerMethodNameFormatter$1, NewServer, (*RPCServer).Register, NewMergeClient, makeHandler, (*handler).register, (*handler).handle, processFuncOut, (*client).makeRpcFunc, NewMethodNameFormatter$1, (*RPCServer).AliasMethod, WithClientHandlerAlias$1, NewCustomClient
 //@ property C14 units: (*wsConn).setupPings$1, (*wsConn).setupPings$2, (*wsConn).setupPings$5$1, (*deadlineResetReader).Read, (*wsConn).nextWriter, (*wsConn).sendRequest, (*wsConn).setupPings, (*wsConn).setupPings$4, (*wsConn).handleWsConn, (*wsConn).tryReconnect, (*wsConn).tryReconnect$1, (*wsConn).handleOutChans, (*wsConn).handleCtxAsync, (*wsConn).nextMessage, (*wsConn).handleResponse, (*wsConn).handleCall, (*wsConn).handleCall$3, (*wsConn).cancelCtx, (*wsConn).handleChanMessage, (*wsConn).handleChanClose, (*wsConn).closeInFlight, (*wsConn).closeChans, (*wsConn).readFrame, (*wsConn).resetReadDeadline, withLazyWriter, (*lazyWriter).Write, (*lazyWriter).Write$1$1
 //@ property C05 units: WithReconnectBackoff$1, WithNoReconnect$1, websocketClient$1, (*RPCConnectionError).Error, (*RPCConnectionError).Unwrap, WithErrors$1, NewErrors, (*JSONRPCError).val, (*backoff).next, (*wsConn).tryReconnect, (*wsConn).tryReconnect$1, (*wsConn).handleWsConn, websocketClient, (*rpcFunc).handleRpcCall, (*wsConn).closeInFlight
-//@ property C03 units: websocketClient$3, (*client).setupRequestChan, (*deadlineResetReader).Read, (*wsConn).resetReadDeadline, (*wsConn).handleWsConn, (*wsConn).tryReconnect, (*wsConn).tryReconnect$1, (*wsConn).closeInFlight, (*wsConn).nextMessage, (*wsConn).readFrame, (*client).setupRequestChan$1, (*wsConn).sendRequest, (*wsConn).handleResponse
+//@ property C03 units: websocketClient$3, (*client).setupRequestChan, (*deadlineResetReader).Read, (*wsConn).resetReadDeadline, (*wsConn).handleWsConn, (*wsConn).tryReconnect, (*wsConn).tryReconnect$1, (*wsConn).closeInFlight, (*wsConn).nextMessage, (*wsConn).readFrame, (*client).setupRequestChan$1, (*wsConn).sendRequest, (*wsConn).handleResponse, websocketClient
 //@ property C02 units: (*rpcFunc).handleRpcCall, normalizeID, (*client).makeRpcFunc, (*client).setupRequestChan$1, httpClient$1, NewCustomClient$1, (*wsConn).handleWsConn, (*wsConn).handleResponse, (*wsConn).closeInFlight, (*wsConn).frameExecutor, (*wsConn).handleFrame, (*wsConn).handleCall, (*handler).handle, rpcError$1
 //@ property C04 units: (*rpcFunc).handleRpcCall, (*client).makeRpcFunc, (*client).provide, httpClient$1, (*wsConn).handleWsConn, (*wsConn).frameExecutor, (*wsConn).handleFrame, (*wsConn).handleCall, (*handler).handle, (*wsConn).closeInFlight, (*wsConn).closeChans, (*wsConn).tryReconnect, (*wsConn).tryReconnect$1
 //@ property C06 units: (*client).setupRequestChan$1, (*wsConn).handleCtxAsync, (*wsConn).handleResponse, (*wsConn).cancelCtx, (*wsConn).handleCall, (*wsConn).handleCall$2, (*wsConn).handleCall$3, (*handler).handle, (*wsConn).closeInFlight, (*RPCServer).ServeHTTP, (*handler).handleReader, httpClient$1, (*wsConn).handleFrame
@@ -18,7 +18,7 @@ package jsonrpc
 //@ property C16 units: WithClientHandler$1, websocketClient$2$1, WithReverseClient$1$1, ExtractReverseClient, (*RPCServer).handleWS, (*RPCServer).ServeHTTP, (*client).setupRequestChan$1, (*wsConn).handleChanOut, websocketClient, WithClientHandlerAlias$1, (*wsConn).closeInFlight, (*wsConn).handleWsConn, (*wsConn).handleCall
 //@ property C07 units: (*client).makeOutChan$1, (*client).setupRequestChan, (*wsConn).handleOutChans, (*wsConn).handleOutChans$1, (*wsConn).handleChanOut, (*handler).handle, (*wsConn).handleResponse, (*wsConn).handleChanMessage, (*client).makeOutChan$1$1, (*client).makeOutChan$1$2, (*wsConn).handleFrame
 //@ property C08 units: (*client).makeOutChan$1, (*wsConn).setupPings$5$1, (*wsConn).handleChanOut, (*wsConn).handleOutChans, (*wsConn).handleChanClose, (*wsConn).closeChans, (*wsConn).handleChanMessage, (*wsConn).tryReconnect, (*wsConn).handleWsConn, (*client).makeOutChan$1$1, (*client).makeOutChan$1$2, (*wsConn).handleResponse
-//@ property C11 units: (*ErrClient).Error, (*ErrClient).Unwrap, WithErrors$1, WithServerErrors$1, (*client).setupRequestChan$1, (*handler).createError, (*Errors).Register, NewErrors, (*JSONRPCError).val, (*JSONRPCError).Error, (*rpcFunc).processResponse, (*rpcFunc).processError, (*handler).handle, (response).MarshalJSON, processFuncOut, (*wsConn).handleResponse
+//@ property C11 units: (*ErrClient).Error, (*ErrClient).Unwrap, WithErrors$1, WithServerErrors$1, (*client).setupRequestChan$1, (*handler).createError, (*Errors).Register, NewErrors, (*JSONRPCError).val, (*JSONRPCError).Error, (*rpcFunc).processResponse, (*rpcFunc).processError, (*handler).handle, (response).MarshalJSON, processFuncOut, (*wsConn).handleResponse, NewCustomClient
 //@ property C01 units: WithParamEncoder$1, WithParamDecoder$1, DecodeParams, NewCustomClient, httpClient, (*deadlineResetReader).Read, defaultConfig, defaultServerConfig, processFuncOut, (*param).MarshalJSON, (*param).UnmarshalJSON, (*client).makeRpcFunc, (*client).provide, (*rpcFunc).handleRpcCall, (*rpcFunc).processResponse, (*rpcFunc).processError, (*client).sendRequest, NewCustomClient$1, httpClient$1, (*client).setupRequestChan$1, (*handler).register, (*handler).handle, doCall, (response).MarshalJSON, (*wsConn).handleResponse, (*wsConn).handleCall, NewMethodNameFormatter$1, (*RPCServer).AliasMethod
 //@ property C13 units: doCall, (*handler).handle, rpcError$1
 
@@ -53,6 +53,12 @@ package jsonrpc
 //@ unsync wsConn.incoming: replaced by the connection loop only while no reader goroutine is running (not checked)
 //@ unsync wsConn.chanCtr: accessed with sync/atomic only
 //@ -- prohibitions: these calls do not occur in the module; introducing one breaks the stated discipline
+//@ -- Core units: the properties overlap (a call that hangs breaks C01, C02 and C03 alike), so for the functions every
+//@ -- property of a group rests on, ALL clauses count for every property of the group, whatever their tags say.
+//@ core C01 C02 C03 C04 C05 C06 C16: (*wsConn).handleWsConn, (*wsConn).tryReconnect, (*wsConn).tryReconnect$1, (*wsConn).nextMessage, (*wsConn).readFrame, (*wsConn).closeInFlight, (*wsConn).handleResponse, (*wsConn).sendRequest, (*client).setupRequestChan, (*client).setupRequestChan$1, (*wsConn).handleCall, (*wsConn).frameExecutor, (*wsConn).handleFrame
+//@ core C07 C08 C09 C15: (*wsConn).handleOutChans, (*wsConn).handleOutChans$1, (*wsConn).handleChanOut, (*wsConn).handleChanMessage, (*wsConn).handleChanClose, (*wsConn).closeChans, (*client).makeOutChan$1, (*client).makeOutChan$1$1, (*client).makeOutChan$1$2
+//@ core C09 C12: (*handler).handle, (*handler).handleReader, rpcError, rpcError$1, doCall
+//@ core C04 C09 C10 C13 C15: (*wsConn).handleCall, (*wsConn).readFrame, (*wsConn).frameExecutor
 //@ -- module-wide rules (global ...) of these properties are checked in EVERY function of the module, not only in the
 //@ -- units listed above: code added anywhere (a new helper, a new goroutine body, a callback) is held to them too
 //@ sweep C14, C02, C03, C04, C05, C06, C07, C08, C13, C15, C16
@@ -65,6 +71,8 @@ package jsonrpc
 //@ global at mapdel wsConn.handling: assert a-handler-context-is-forgotten-only-when-its-call-is-done: infunc("(*wsConn).handleCall$3") [C06,C15]
 //@ global at mapset wsConn.handling: assert handler-contexts-are-registered-only-at-dispatch: infunc("(*wsConn).handleCall") [C06,C15]
 //@ global at call (*wsConn).resetReadDeadline: assert read-deadline-extended-only-where-the-peer-was-heard: infunc("(*wsConn).nextMessage|(*wsConn).handleWsConn") [C03]
+//@ global-forbid at recv *: assert callbacks-run-under-locks-or-at-shutdown-never-wait: !infunc("(*wsConn).setupPings$5") [C15,C08,C03]
+//@ global-forbid at mapdel var:readers: assert a-rendezvous-entry-is-never-removed-while-a-peer-may-wait-on-it: false [C20]
 //@ global at call (reflect.Value).Call: assert user-code-runs-only-under-the-panic-guard: infunc("doCall|auth.PermissionedProxy$1") [C13,C04]
 //@ global-forbid at call (*github.com/gorilla/websocket.Conn).WriteControl: assert control-frames-also-under-writeLk: heldclass("wsConn.writeLk") [C14]
 //@ global-forbid at call (*github.com/gorilla/websocket.Conn).SetWriteDeadline: assert no-sticky-write-deadline-shared-by-all-writers: false [C14]
@@ -259,6 +267,8 @@ package jsonrpc
 //@   ensures released-when-not-kept: !keepCtx ==> calls(cancel) == 1 [C06,C15]
 
 //@ func (*lazyWriter).Write
+//@   at call (io.Writer).Write: assert hands-the-callers-bytes-to-the-connection-writer: $1 == p [C14,C09]
+//@   ensures every-write-reaches-the-connection-writer: calls(Write) == 1 [C14,C09,C15]
 
 //@ func (*lazyWriter).Write$1$1
 
@@ -378,6 +388,7 @@ package jsonrpc
 //@   requires sink-owns-open-channel: incoming != nil && !closed(incoming) [C10,C08]
 //@   requires valid-result-index: 0 <= valOut && valOut < NumOut(ftyp) [C10]
 //@   at close incoming: assert closes-only-at-end-of-stream: !ok [C08]
+//@   at recv *: assert end-of-stream-never-waits: ok [C15,C08] -- closeChans runs this callback under chanHandlersLk at shutdown
 //@   at send incoming: assert forwards-the-decoded-value-while-live: ok && $val == val && calls(Unmarshal) == 1 && calls(Err) == 1 [C07,C08]
 //@   ensures end-of-stream-closes-the-buffer-input: !ok ==> closed(incoming) && calls(Unmarshal) == 0 [C08]
 //@   nopanic [C10]
@@ -653,6 +664,8 @@ package jsonrpc
 //@   at store client.exiting: assert callers-watch-this-connections-exit-signal: $val != nil && $val == exiting [C03,C16]
 //@   at store wsConn.connFactory: assert no-reconnect-drops-the-dial-factory: config.noReconnect ==> $val == nil [C05]
 //@   at store wsConn.reconnectBackoff: assert uses-configured-backoff: $val == config.reconnectBackoff [C05]
+//@   at store wsConn.timeout: assert stall-detection-uses-the-configured-timeout: $val == config.timeout [C03,C05]
+//@   at store wsConn.pingInterval: assert uses-the-configured-ping-interval: $val == config.pingInterval [C03]
 
 //@ func (*client).setupRequestChan$1
 //@   ghost pendingCancel : Bool = false
@@ -750,6 +763,7 @@ package jsonrpc
 //@   initphase -- runs in handleWS before the connection loop starts: the wsConn is not shared yet
 //@   at store client.exiting: assert reverse-client-is-per-connection: isfresh($obj) && $val == conn.exiting [C16]
 //@   at store client.namespace: assert reverse-client-is-per-connection: isfresh($obj) [C16]
+//@   at store client.methodNameFormatter: assert reverse-calls-use-the-servers-final-formatter: $val == c.methodNameFormatter [C16,C12]
 //@   at call (*client).setupRequestChan: assert queue-built-for-this-client: isfresh($0) [C16]
 //@   at ret (*client).setupRequestChan: let rq = $result0
 //@   at store wsConn.requests: assert connection-serves-this-clients-queue: $obj == conn && $val == rq [C16]
@@ -879,6 +893,10 @@ package jsonrpc
 
 //@ func NewCustomClient
 //@   may_panic
+//@   ghost built : Bool = false
+//@   at store client.methodNameFormatter: set built = true
+//@   at dyncall o: assert every-option-applied-before-the-client-is-built: !built [C12,C01,C11]
+//@   loop 1 invariant no-client-field-read-while-options-run: !built [C12,C01,C11]
 //@   at store client.methodNameFormatter: assert uses-configured-formatter: $val == config.methodNamer [C12,C01]
 //@   at store client.paramEncoders: assert uses-configured-encoders: $val == config.paramEncoders [C01]
 //@   at store client.errors: assert uses-configured-error-table: $val == config.errors [C11,C01]
@@ -933,6 +951,7 @@ package jsonrpc
 
 //@ func (*client).makeOutChan$1
 //@   may_panic
+//@   requires valid-result-index: 0 <= valOut && valOut < NumOut(ftyp)
 //@   at go makeOutChan$1$1: assert buffer-goroutine-started-before-sink-is-handed-out: true [C07,C08]
 //@   ensures sink-and-context: result1 != nil && result0 == ctx [C07,C08,C06]
 
